@@ -220,12 +220,41 @@ def parse_answer(line):
     return {"rc": int(f["rc"]), "c": int(f["c"]), "cnt": int(f["cnt"]), "nz": int(f["nz"]), "n": int(f["n"]),
             "n2": int(f["n2"]), "r": parse_list(f["r"]), "r2": parse_list(f["r2"]), "xs": parse_list(f["xs"])}
 
+MAX_CRASHES = 40      # per driver run; the quotas keep the crashes of the known findings far below this
+
+def batch_run_capped(exe, lines, env, timeout):
+    """like common.batch_run (one answer line per case, restart after a crash), but gives up after MAX_CRASHES dead
+    driver processes: a defect that makes most calls hang must end in a verdict, not in a rig timeout.
+    -> (results, number of cases actually run)"""
+    res = [None] * len(lines); i = 0; crashes = 0
+    e = {"UBSAN_OPTIONS": "print_stacktrace=1:halt_on_error=1"}; e.update(env)
+    while i < len(lines) and crashes < MAX_CRASHES:
+        rc, out = common.sh([exe], stdin=("\n".join(lines[i:]) + "\n").encode(), timeout=timeout, env=e)
+        k = 0
+        for ln in out.split("\n"):
+            if ln.startswith("==") or "runtime error:" in ln or ln.startswith("FAULT") or ln.startswith("[rig] TIMEOUT"): break
+            if ln.strip() == "": continue
+            if i + k >= len(lines): break
+            res[i + k] = ln; k += 1
+        if rc == 0 and i + k >= len(lines):
+            return res, len(lines)
+        if i + k >= len(lines):
+            raise common.Infra("driver exited rc=%s after answering everything:\n%s" % (rc, out[-2000:]))
+        key = common.san_key(out) or (("timeout", "", "", "driver timeout") if rc == 124 else ("exit-%s" % rc, "", "", out[-300:]))
+        res[i + k] = {"crash": key, "raw": out[-2500:]}
+        i += k + 1; crashes += 1
+    return res, i
+
 def run_cases(ctx, bld, cases, alarm):
     """-> list of events (dicts for TLC); crashes become events with rc = CRASH_RC"""
     lines = [case_line(c, POISONS[i % len(POISONS)]) for i, c in enumerate(cases)]
     env = {"ASAN_OPTIONS": "detect_leaks=0:abort_on_error=0:detect_stack_use_after_return=0:allocator_may_return_null=1",
            "BN_DRV_ALARM": str(alarm)}
-    res = common.batch_run(bld.exe, lines, timeout=1800, env=env)
+    res, done = batch_run_capped(bld.exe, lines, env, timeout=1800)
+    if done < len(lines):
+        ctx.log("%s: gave up after %d dead driver processes; %d of %d calls not run" % (bld.name, MAX_CRASHES, len(lines) - done, len(lines)))
+        ctx.add(calls_not_run_after_crash_cap=len(lines) - done)
+        cases, lines, res = cases[:done], lines[:done], res[:done]
     evs = []
     byop = ctx.cov.setdefault("calls_by_operation", {})
     for c in cases: byop[c["op"]] = byop.get(c["op"], 0) + 1
@@ -451,7 +480,7 @@ def tier_c(ctx, builds, per_build):
             cases += mod_cases(x, y, m, prime, w, maxd, q)
         cases = [c for c in cases if c["k"] < (1 << 30) and c["k2"] < (1 << 30)]
         sel = rng.sample(cases, min(per_build, len(cases)))
-        return run_cases(ctx, bld, sel, alarm=60)
+        return run_cases(ctx, bld, sel, alarm=20)
     pool = []
     with cf.ThreadPoolExecutor(max_workers=4) as ex:
         for bld, evs in zip(builds, ex.map(one_build, builds)):
